@@ -17,6 +17,7 @@ ALL = ['P_T', 'P_TA', 'P_N', 'F_T', 'F_TA', 'F_N', 'V_T', 'V_TA', 'V_N', 'M_T', 
 VARYING = ['V_T', 'V_TA', 'V_N', 'M_T', 'M_NA', 'VV_T']
 ALIGNED = ['P_TA', 'F_TA', 'V_TA', 'M_NA', 'VV_T']
 NONTRIV = ['P_N', 'F_N', 'V_N', 'M_NA']
+CXX20_LISTS = ['V_T', 'V_N', 'F_T', 'F_N', 'M_NA', 'VV_T', 'P_TA']
 NONTRIV_A = ['V_NA', 'PV_NA']   # non-trivial AlignAs objects whose size is not a multiple of the alignment (relocation overlaps)
 S5Q = ['P_T', 'P_TA', 'P_N', 'F_T', 'F_TA', 'F_N', 'V_T', 'V_TA', 'V_N', 'M_T', 'B_T', 'B_TA', 'VB_T', 'P_TB', 'B_B', 'BB_T', 'SB_T']
 
@@ -125,7 +126,7 @@ PROPS = {
             'units': {'quick': u('S1', ALL) + u('SR', ['V_T', 'V_N', 'F_N', 'M_NA']) + u('S1sim', ['V_T', 'M_NA'])
                                + u('S1', ['V_N', 'M_T'], ('AE',), ('cxx20',)),
                       'thorough': u('S1', ALL, ('AE', 'NP')) + u('S1', ALL, ('AE',), ('ndebug',)) + u('SR', ALL, ('AE', 'PR'))
-                                  + u('S1sim', ALL, ('AE',)) + u('S1', ALL, ('AE',), ('cxx20',))},
+                                  + u('S1sim', ALL, ('AE',)) + u('S1', CXX20_LISTS, ('AE',), ('cxx20',))},
             'kinds': K_SEQ | {'PATHS_DISAGREE'}, 'crash': crash_any, 'filter': None,
             'technique': 'TLA+ model (Cntgs.tla) explored by TLC; transition-cover histories replayed on the real '
                          'templates; every step of the recorded trace judged by Trace.tla (sequence semantics)'},
@@ -188,7 +189,7 @@ PROPS = {
             'units': {'quick': u('S2', ALL, ('NP',)) + u('S2', ['F_N', 'V_N'], ('AE', 'PR')) + u('S2sim', ['V_N', 'F_T'], ('NP',))
                                + u('S2', ['V_N'], ('NP',), ('cxx20',)),
                       'thorough': u('S2', ALL, ('NP', 'AE', 'PR')) + u('SR', ALL, ('AE', 'PR')) + u('S2sim', ALL, ('NP', 'PR'))
-                                  + u('S2', ALL, ('NP',), ('cxx20',))},
+                                  + u('S2', ['V_N', 'F_N', 'V_T'], ('NP',), ('cxx20',))},
             'kinds': K_VALUE, 'crash': crash_any, 'filter': None,
             'technique': 'two-vector TLA+ model (copy/move construction and assignment, swap, self forms, moved-from '
                          'targets, all source/target shapes up to capacity 2) explored by TLC; the projection of BOTH '
@@ -210,7 +211,7 @@ PROPS = {
     'C12': {'level': 'model_checking',
             'units': {'quick': u('S3', ['F_T', 'F_N', 'V_T', 'V_N', 'V_TA', 'M_NA', 'P_TA'], ('NP',))
                                + u('S3', ['F_N', 'V_N'], ('AE', 'PR')) + u('S3', ['V_N'], ('NP',), ('cxx20',)),
-                      'thorough': u('S3', ALL, ('NP', 'AE', 'PR')) + u('S3', ALL, ('NP',), ('cxx20',))},
+                      'thorough': u('S3', ALL, ('NP', 'AE', 'PR')) + u('S3', ['V_N', 'F_N', 'V_TA'], ('NP',), ('cxx20',))},
             'kinds': K_VALUE | K_LIFE | K_ALLOC | K_LEDGER | K_ORDER | K_MEM | K_ALIGN | K_TIGHT | {'PATHS_DISAGREE'},
             'crash': crash_any, 'filter': None,
             'technique': 'TLA+ model of stand-alone elements (construction from const / rvalue references, copy, move, '
@@ -226,7 +227,7 @@ PROPS = {
                          'of == and != for all operand kinds recorded under rotating junk patterns and compared with '
                          'content equality as DEFINED in the spec (EqElem/EqElems)'},
     'C14': {'level': 'model_checking',
-            'units': {'quick': u('S5', S5Q) + u('S5', ['F_T', 'V_N'], ('AE',), ('cxx20',)), 'thorough': u('S5', ALL + ['B_T', 'B_TA', 'VB_T'], ('AE', 'NP')) + u('S5', ALL, ('AE',), ('cxx20',))},
+            'units': {'quick': u('S5', S5Q) + u('S5', ['F_T', 'V_N'], ('AE',), ('cxx20',)), 'thorough': u('S5', ALL + ['B_T', 'B_TA', 'VB_T'], ('AE', 'NP')) + u('S5', ['F_T', 'V_N', 'V_TA', 'P_T'], ('AE',), ('cxx20',))},
             'kinds': {'RELATIONAL_INCONSISTENT', 'VECTOR_RELATIONAL_INCONSISTENT', 'COMPARE_DEPENDS_ON_OPERAND_KIND',
                       'NOT_A_STRICT_ORDER', 'COMPARE_DEPENDS_ON_NON_CONTENT', 'VECTOR_ORDER'},
             'crash': crash_any, 'filter': None,
